@@ -1,13 +1,13 @@
 SPECIFICATION Spec
 CONSTANTS
   VCodec = "hevc"
-  ACodec = "none"
-  MaxPub = 10
-  MaxVer = 3
-  VKinds <- HevcAll
-  DtPool <- Dt5
+  ACodec = "aac"
+  MaxPub = 6
+  MaxVer = 2
+  VKinds <- HevcCore
+  DtPool <- Dt2
   AscPool = {1, 2, 3}
   ProbeMax = 16
   GopNum = 1
 INVARIANTS AllOk EndComplete
-ACTION_CONSTRAINT EmitA
+VIEW View
